@@ -31,6 +31,18 @@ def callables(module, path=()):
                         yield ('static', path, d[3], m[3] + R.inst_suffix(mc), R.subst_args(m[4], env, this), R.subst_ret(m[2], env, this) if not mc else None)
 
 
+def enum_context(module, path=(), out=None):
+    """(path, class name) -> (enums declared in the class, enums declared in the class's namespace)"""
+    out = {} if out is None else out
+    ns_enums = [d[1] for d in module if d[0] == 'enum']
+    for d in module:
+        if d[0] == 'ns':
+            enum_context(d[2], path + (d[1],), out)
+        elif d[0] == 'class':
+            out[(path, d[3])] = ([m[1] for m in d[5] if m[0] == 'enum'], ns_enums)
+    return out
+
+
 def ndefaults(args):
     k = 0
     for a in reversed(args):
@@ -56,6 +68,7 @@ def c06_check(text, files, w, module):
         elif isinstance(cls, parser.GlobalFunction):
             by_member.setdefault((None, ''.join(cls.parent.full_namespaces()) + '.' + cls.name), []).append((idx, name, cls))
     groups = {}
+    ectx = enum_context(module)
     for c in callables(module):
         kind, path, cname, name, args, ret = c
         if name in ('serialize', 'serializable', 'pickle') and kind == 'method':
@@ -142,6 +155,21 @@ def c06_check(text, files, w, module):
                 want_outs = 0 if (ret[0] == 'T' and ret[3] == 'void') else 2 if ret[0] == 'P' else 1
                 if outs != want_outs:
                     bad.append(('return-outputs', '%s assigns %d outputs, declared return needs %d' % (where, outs, want_outs)))
+                # a returned enum is wrapped as the MATLAB enumeration class in the package where the enum lives
+                if want_outs == 1 and cname is not None and ret[0] == 'T' and not ret[4]:
+                    cls_enums, ns_enums = ectx.get((tuple(path), cname), ((), ()))
+                    pkg = None
+                    if ret[3] in cls_enums and tuple(ret[2]) in ((), tuple(path) + (cname,)):
+                        pkg = tuple(path) + (cname,)
+                    elif ret[3] in ns_enums and ret[3] not in cls_enums and tuple(ret[2]) in ((), tuple(path)):
+                        pkg = tuple(path)
+                    if pkg is not None:
+                        em = re.search(r'wrap_enum\(.*,"([\w.]*)"\);', body)
+                        want_cls = '.'.join(pkg + (ret[3],))
+                        if not em:
+                            bad.append(('return-enum', '%s returns enum %s but does not wrap it with wrap_enum' % (where, want_cls)))
+                        elif em.group(1) != want_cls:
+                            bad.append(('return-enum-class', '%s wraps its enum result as "%s", declared %s' % (where, em.group(1), want_cls)))
     bad += m_guards(files, w)
     return bad
 
@@ -363,7 +391,7 @@ def modules(n, seed):
     import gtwrap.interface_parser as ip
     from gen import scope
     from gen.iface import Gen, sanitize, unparse
-    for sp in scope.sample(n, seed + 3):
+    for sp in scope.core_specs() + scope.sample(n, seed + 3):
         t = scope.build(sp)
         yield t, abs_module(ip.Module.parseString(t)), 'scope'
     from props.pybind_scope import known_predicates
@@ -375,25 +403,28 @@ def modules(n, seed):
 
 
 def run(rep, n, which):
-    for text, m, origin in modules(n, rep.seed):
-        rep.bounded['evaluations'] += 1
-        try:
-            files, w = generate(text)
-        except Exception as e:
-            rep.bounded['skipped'] += 1
-            continue
-        rep.bounded['distinct'].add(hash(text))
-        if len(rep.bounded['samples']) < 2:
-            rep.bounded['samples'].append(dict(input=text[:300], origin=origin))
-        bad = c06_check(text, files, w, m) if which == 'C06' else c10_check(text, files, w, m)
-        for key, msg in bad:
-            rep.violation('%s:%s' % (which.lower(), key), msg, dict(kind='matlab-' + which, input=text, message=msg))
+    for i, (text, m, origin) in enumerate(modules(n, rep.seed)):
+        # serialization setting: the structured scope is generated under both, random modules alternate
+        for boost in ((False, True) if origin == 'scope' else (bool(i % 2),)):
+            rep.bounded['evaluations'] += 1
+            try:
+                files, w = generate(text, boost=boost)
+            except Exception as e:
+                rep.bounded['skipped'] += 1
+                continue
+            rep.bounded['distinct'].add(hash((text, boost)))
+            if len(rep.bounded['samples']) < 2:
+                rep.bounded['samples'].append(dict(input=text[:300], origin=origin, use_boost_serialization=boost))
+            bad = c06_check(text, files, w, m) if which == 'C06' else c10_check(text, files, w, m)
+            for key, msg in bad:
+                rep.violation('%s:%s' % (which.lower(), key), msg + (' [use_boost_serialization]' if boost else ''),
+                              dict(kind='matlab-' + which, input=text, message=msg, boost=boost))
 
 
 def replay(obj):
     import gtwrap.interface_parser as ip
     text = obj['input']
-    files, w = generate(text)
+    files, w = generate(text, boost=bool(obj.get('boost', False)))
     m = abs_module(ip.Module.parseString(text))
     bad = c06_check(text, files, w, m) if obj['kind'].endswith('C06') else c10_check(text, files, w, m)
     for k, msg in bad:
